@@ -17,7 +17,7 @@ SNext ==
   \/ \E b \in {x \in Blocks : x % 3 = K % 3} : Ask(b) /\ T([a |-> "ask", b |-> b])
   \/ \E b \in {x \in Blocks : x % 3 = (K + 1) % 3} : Verify(b) /\ T([a |-> "verify", b |-> b])
   \/ \E key \in Keys \ stored : Write(key) /\ T([a |-> "write", key |-> key])
-  \/ \E dt \in Steps : Advance(dt) /\ T([a |-> "advance", ms |-> dt])
+  \/ \E dt \in Steps \cup {NextDeadline} : Advance(dt) /\ T([a |-> "advance", ms |-> dt])
   \/ K % 8 = 7 /\ \E r \in 1..NB : Cleanup(r) /\ T([a |-> "cleanup", r |-> r])
   \/ K % 5 = 2 /\ \E d \in Keys, p \in Peers : BlockRequest(d, p) /\ T([a |-> "breqin", d |-> d, p |-> p])
   \/ K % 5 = 4 /\ \E ds \in {{11}, {12, 13}, {11, 14}, {13, 14, 12}}, p \in Peers :
